@@ -74,3 +74,49 @@ def boundary_lp(x: float) -> float:
     if x > 0.0:
         return -0.5 * x * x
     return -math.inf
+
+
+# ---------------------------------------------------------------------------------
+# smooth double well for the IWLS kernel: log pi(x) = -(x^2 - 1)^2. The information
+# (negative Hessian) 12 x^2 - 4 is positive only for |x| > 1/sqrt(3); where it is not,
+# the IWLS proposal density q(. | x) does not exist and every ratio that needs it is
+# undefined (NaN).
+# ---------------------------------------------------------------------------------
+
+
+def dw_lp(x: float) -> float:
+    return math.nan if math.isnan(x) else -((x * x - 1.0) ** 2)
+
+
+def dw_score(x: float) -> float:
+    return -4.0 * x * (x * x - 1.0)
+
+
+def dw_info(x: float) -> float:
+    return 12.0 * x * x - 4.0
+
+
+def dw_mean_sd(x: float, s: float):
+    """Mean and standard deviation of the documented IWLS proposal q(. | x), or None."""
+    f = dw_info(x)
+    if math.isnan(f) or f <= 0.0:
+        return None
+    return x + 0.5 * s * s * dw_score(x) / f, s / math.sqrt(f)
+
+
+def dw_proposal(x: float, s: float, z: float) -> float:
+    ms = dw_mean_sd(x, s)
+    return math.nan if ms is None else ms[0] + ms[1] * z
+
+
+def dw_log_q(to: float, frm: float, s: float) -> float:
+    ms = dw_mean_sd(frm, s)
+    if ms is None or math.isnan(to):
+        return math.nan
+    mu, sd = ms
+    return -0.5 * ((to - mu) / sd) ** 2 - math.log(sd) - 0.5 * LOG_2PI
+
+
+def dw_correction(x: float, xp: float, s: float) -> float:
+    """log q(x | x') - log q(x' | x); NaN (undefined) if either density does not exist."""
+    return dw_log_q(x, xp, s) - dw_log_q(xp, x, s)
